@@ -42,6 +42,10 @@ pub struct Ctx {
     pub bad_edge_costs: Vec<(usize, f64)>,
     pub max_tree_len: usize,
     pub max_iterations: u64,
+    /// when set, every LoopTop is stamped with the time elapsed since the context was created
+    pub time_loop_tops: bool,
+    pub t0: Option<std::time::Instant>,
+    pub loop_times: Vec<(u64, std::time::Duration)>,
 }
 
 thread_local! {
@@ -58,6 +62,10 @@ impl Ctx {
         let owned = match ev {
             Event::SearchStart { source, target, reverse } => {
                 self.n_searches += 1;
+                if self.time_loop_tops {
+                    // time runs from the start of the (latest) search, a moment before its own clock starts
+                    self.t0 = Some(std::time::Instant::now());
+                }
                 Some(Ev::SearchStart { source: *source, target: *target, reverse: *reverse })
             }
             Event::LoopTop { iterations, tree_len } => {
@@ -68,6 +76,11 @@ impl Ctx {
                 }
                 if *iterations > self.max_iterations {
                     self.max_iterations = *iterations;
+                }
+                if self.time_loop_tops {
+                    if let Some(t0) = self.t0 {
+                        self.loop_times.push((*iterations, t0.elapsed()));
+                    }
                 }
                 Some(Ev::LoopTop { iterations: *iterations, tree_len: *tree_len })
             }
@@ -191,9 +204,13 @@ pub enum Caught {
 /// run `f` on this thread with a hook context (logical step budget, optional event recording).
 /// returns what `f` returned, or how it unwound, plus the context with everything observed.
 pub fn with_ctx<R>(step_limit: u64, record: bool, f: impl FnOnce() -> R) -> (Result<R, Caught>, Ctx) {
+    with_ctx_timed(step_limit, record, false, f)
+}
+
+pub fn with_ctx_timed<R>(step_limit: u64, record: bool, timed: bool, f: impl FnOnce() -> R) -> (Result<R, Caught>, Ctx) {
     install();
     CTX.with(|c| {
-        *c.borrow_mut() = Some(Ctx { step_limit, record, ..Default::default() });
+        *c.borrow_mut() = Some(Ctx { step_limit, record, time_loop_tops: timed, t0: Some(std::time::Instant::now()), ..Default::default() });
     });
     LAST_PANIC.with(|p| *p.borrow_mut() = None);
     let r = catch_unwind(AssertUnwindSafe(f));
